@@ -8,6 +8,7 @@ Obs == ndJsonDeserialize(IOEnv.VERIF_OBS)
 
 Clause(o) ==
     LET n == Len(o.kinds)
+        Silent(i) == o.kinds[i] = "okdrop" /\ o.alone[i].ok /\ o.alone[i].out = <<>>
         hasCorr == o.corr # "none"
         corrFails == hasCorr /\ Fails(o.kinds[1])
         \* a feature the backend lacks is reported by NotImplementedError when errors are not collected (the repository's
@@ -16,6 +17,8 @@ Clause(o) ==
         aloneBad == {i \in 1..n :
                        IF o.kinds[i] = "failU" THEN o.alone[i].ok \/ o.alone[i].exc # NIE
                        ELSE IF Fails(o.kinds[i]) THEN o.alone[i].ok \/ ~o.alone[i].sigma
+                       \* recorded deviation: an emptied rule yields nothing at all (neither a query nor a record)
+                       ELSE IF Silent(i) THEN FALSE
                        ELSE ~o.alone[i].ok \/ Len(o.alone[i].out) # NQueries(o.kinds[i])}
         wantOut == Concat([i \in 1..n |-> IF Fails(o.kinds[i]) \/ (i = 1 /\ o.corr = "nogen") THEN <<>> ELSE o.alone[i].out])
                    \o (IF hasCorr /\ ~corrFails THEN <<o.corr_alone.out[Len(o.corr_alone.out)]>> ELSE <<>>)
@@ -44,7 +47,9 @@ Clause(o) ==
          ELSE IF o.coll.out # wantOut THEN "EqualsAlone"
          ELSE "")
 
-Verdict(o) == LET c == Clause(o) IN [id |-> o.id, v |-> IF c = "" THEN "ok" ELSE "violation:" \o c]
+Verdict(o) == LET c == Clause(o)
+                  silent == \E i \in 1..Len(o.kinds) : o.kinds[i] = "okdrop" /\ o.alone[i].ok /\ o.alone[i].out = <<>>
+              IN  [id |-> o.id, v |-> IF c # "" THEN "violation:" \o c ELSE IF silent THEN "dev:Dev_EmptiedRuleYieldsNothing" ELSE "ok"]
 ASSUME ndJsonSerialize(IOEnv.VERIF_OUT, [i \in 1..Len(Obs) |-> Verdict(Obs[i])])
 Init == x = 0
 Next == UNCHANGED x
